@@ -29,7 +29,8 @@ def plan(tier):
             "required_classes": ["add:centres-differ", "add:direction-differs", "apply:charged-operator",
                                  "conj_trans:charged-then-apply", "add:coeffs-differ", "distance:coeffs-differ",
                                  "complex-with-real", "mpdm", "post:canonicalised", "long-chain",
-                                 "sector:zero-with-signed-labels"],
+                                 "sector:zero-with-signed-labels", "amplitude:tiny", "amplitude:huge",
+                                 "prefactors:tiny-and-different", "distance:equal-prefactors-not-one"],
             "required_counters": {"oracle": 2000}}
     if tier == "quick":
         base.update({"ncases": 320, "min_nontrivial": 120})
@@ -137,11 +138,16 @@ def run_case(ctx):
         # tiny / huge amplitudes carried by the tensors (every tolerance of the check is relative to the operands)
         amp = float(rng.choice([1e-6, 1e-4, 1e5]))
         ctx.cls("amplitude:tiny" if amp < 1 else "amplitude:huge")
+    tiny_coeff = bool(rng.random() < 0.08)
+    if tiny_coeff:
+        ctx.cls("prefactors:tiny-and-different")
     for _ in range(int(rng.integers(2, 5))):
         mps = ctx.lib(states.random_state, ctx, gm, model, qntot, what="state-constructor", promised=False)
         mps.compress_config = lossless_cfg()
         if amp != 1.0:
             mps.scale(amp, inplace=True)
+        if tiny_coeff:
+            mps.coeff = mps.coeff * float(rng.choice([1e-9, 3e-9, 5e-9]))
         ref = states.dense_of(mps)
         tr = ["state"]
         f = ctx.lib(states.gauge_history, rng, mps, 4, tr, what="gauge-history")
@@ -281,9 +287,10 @@ def run_case(ctx):
                 differ = not np.allclose(a.mp.coeff, b.mp.coeff)
                 if differ:
                     ctx.cls("distance:coeffs-differ")
-                    want = np.linalg.norm(a.ref - b.ref)
-                else:
-                    want = np.linalg.norm(ta - tb)
+                elif abs(abs(complex(a.mp.coeff)) - 1) > 1e-6:
+                    ctx.cls("distance:equal-prefactors-not-one")
+                # the distance of the represented vectors (prefactors included), whatever the library does internally
+                want = np.linalg.norm(a.ref - b.ref)
                 got = ctx.lib(a.mp.distance, b.mp, what="distance")
                 ctx.count("oracle")
                 nrm = max(np.linalg.norm(a.ref), np.linalg.norm(b.ref), np.linalg.norm(ta), np.linalg.norm(tb))
